@@ -80,6 +80,10 @@ public:
 	void afterCompletion(const std::string&) { r->tok("}COMPL"); }
 };
 
+// document mode (serialize-resume-doc): hand-written documents with values of any kind: the whole text of a <log>
+// is recorded (hex), and the final value of every <data id> as JSON
+static bool szDocMode = false;
+
 class SzLogger : public LoggerImpl {
 public:
 	SzRecorder* r;
@@ -90,6 +94,11 @@ public:
 	void log(LogSeverity severity, const std::string& message) {
 		if (severity != USCXML_LOG) return;
 		std::string m = message;
+		if (szDocMode) {
+			while (m.size() && (m.back() == '\n' || m.back() == '\r')) m.pop_back();
+			r->tok("LOG:" + hex(m));
+			return;
+		}
 		while (m.size() && (m.back() == '\n' || m.back() == ' ' || m.back() == '"')) m.pop_back();
 		size_t p = m.rfind(' ');
 		if (p != std::string::npos) m = m.substr(p + 1);
@@ -315,6 +324,25 @@ static void feedAfterIdle(Machine& m, const std::vector<std::string>& a, size_t&
 }
 
 static std::string dataOf(Machine& m, const std::string& xml) {
+	if (szDocMode) {
+		// every <data id="...">: id=hex(JSON of evalAsData(id)), ERR when the evaluation throws
+		std::string out;
+		size_t p = 0;
+		while ((p = xml.find("<data id=\"", p)) != std::string::npos) {
+			p += 10;
+			size_t q = xml.find('"', p);
+			std::string id = xml.substr(p, q - p);
+			try {
+				Data d = m.in->getImpl()->evalAsData(id);
+				std::string j = d.asJSON();
+				for (auto& ch : j) if (ch == '\n' || ch == '\r') ch = ' ';
+				out += " " + id + "=" + hex(j);
+			} catch (...) {
+				out += " " + id + "=ERR";
+			}
+		}
+		return out.size() ? out : " -";
+	}
 	// the declared data ids are Var<n>
 	std::vector<std::string> ids;
 	size_t p = 0;
@@ -353,6 +381,7 @@ static std::string excText(const char* what) {
 // serialize-resume <engine> <hex scxml> <fuel> <k> <item>*
 static std::string cmd_serialize_resume(const std::vector<std::string>& a) {
 	if (a.size() < 5) return "ERR usage";
+	szDocMode = (a[0] == "serialize-resume-doc");
 	std::string engine = a[1];
 	std::string xml = unhex(a[2]);
 	int fuel = atoi(a[3].c_str());
@@ -415,6 +444,7 @@ static std::string cmd_serialize_resume(const std::vector<std::string>& a) {
 // the items (all of them), and so is an untouched interpreter of B
 static std::string cmd_serialize_foreign(const std::vector<std::string>& a) {
 	if (a.size() < 6) return "ERR usage";
+	szDocMode = false;
 	std::string engine = a[1];
 	std::string xmlA = unhex(a[2]), xmlB = unhex(a[3]);
 	int fuel = atoi(a[4].c_str());
@@ -467,3 +497,4 @@ static std::string cmd_serialize_foreign(const std::vector<std::string>& a) {
 VD_REGISTER(serialize_resume, cmd_serialize_resume)
 static VdReg vd_reg_serialize_resume_dash("serialize-resume", cmd_serialize_resume);
 static VdReg vd_reg_serialize_foreign_dash("serialize-foreign", cmd_serialize_foreign);
+static VdReg vd_reg_serialize_resume_doc("serialize-resume-doc", cmd_serialize_resume);
